@@ -66,19 +66,45 @@ theorem risePst_names (sy : Sy) (riseObs : List String) :
     simp only [risePst, syNames, List.map_map]
     rfl
 
-theorem curvesTpl_spline_names (sy : Sy) (zk kk : List String) (tmin : String) :
-    (curvesTpl sy (.spline zk kk tmin)).flatMap TLine.names =
-      syNames sy ++ (List.range kk.length).map (fun i => "K_knot_" ++ toString (i + 1)) ++ ["T_min"] := by
-  simp only [curvesTpl, List.flatMap_append, syTpl_names, flatMap_names_lit, flatMap_names_ph,
-    List.flatMap_cons, List.flatMap_nil, names_lit, List.append_nil, List.nil_append]
-  rw [List.append_assoc]
-  rfl
+/-- the placeholders of the transmissivity block of the curves template -/
+def trNames : Tr → List String
+  | .peatclsm _ _ _ => ["Ksmacz0", "alpha"]
+  | .spline _ kk _ => (List.range kk.length).map (fun i => "K_knot_" ++ toString (i + 1)) ++ ["T_min"]
 
-theorem curvesPst_spline_names (zs : List String) (n nT : Nat) (riseObs recObs : List String) :
-    (curvesPst (.spline zs n) nT riseObs recObs).params.map (·.name) =
-      syNames (.spline zs n) ++ (List.range nT).map (fun i => "k_knot_" ++ toString (i + 1)) ++ ["T_min"] := by
-  simp only [curvesPst, syNames, List.map_append, List.map_map]
-  rfl
+/-- the names the control file declares for the transmissivity section (PEST folds case) -/
+def trPstNames : Tr → List String
+  | .peatclsm _ _ _ => ["Ksmacz0", "alpha"]
+  | .spline _ kk _ => (List.range kk.length).map (fun i => "k_knot_" ++ toString (i + 1)) ++ ["T_min"]
+
+theorem curvesTpl_names (sy : Sy) (tr : Tr) :
+    (curvesTpl sy tr).flatMap TLine.names = syNames sy ++ trNames tr := by
+  cases tr with
+  | peatclsm k a z =>
+    simp only [curvesTpl, trNames, List.flatMap_append, syTpl_names, List.flatMap_cons, List.flatMap_nil,
+      names_lit, List.append_nil, List.nil_append]
+    rfl
+  | spline zk kk tmin =>
+    simp only [curvesTpl, trNames, List.flatMap_append, syTpl_names, flatMap_names_lit, flatMap_names_ph,
+      List.flatMap_cons, List.flatMap_nil, names_lit, List.append_nil, List.nil_append]
+    rfl
+
+theorem syPstCurves_names (sy : Sy) : (syPstCurves sy).2.map (·.name) = syNames sy := by
+  cases sy with
+  | peatclsm => rfl
+  | spline zk n =>
+    simp only [syPstCurves, syNames, List.map_map]
+    rfl
+
+theorem trPstCurves_names (tr : Tr) : (trPstCurves tr).2.map (·.name) = trPstNames tr := by
+  cases tr with
+  | peatclsm k a z => rfl
+  | spline zk kk tmin =>
+    simp only [trPstCurves, trPstNames, List.map_append, List.map_map]
+    rfl
+
+theorem curvesPst_names (sy : Sy) (tr : Tr) (riseObs recObs : List String) :
+    (curvesPst sy tr riseObs recObs).params.map (·.name) = syNames sy ++ trPstNames tr := by
+  simp only [curvesPst, List.map_append, syPstCurves_names, trPstCurves_names]
 
 theorem map_lower_K_knot (l : List Nat) :
     (l.map (fun i => "K_knot_" ++ toString (i + 1))).map lower =
@@ -88,6 +114,11 @@ theorem map_lower_K_knot (l : List Nat) :
   | cons a l ih =>
     simp only [List.map_cons, lower_K_knot]
     rw [ih]
+
+theorem trNames_lower (tr : Tr) : (trNames tr).map lower = (trPstNames tr).map lower := by
+  cases tr with
+  | peatclsm k a z => rfl
+  | spline zk kk tmin => simp only [trNames, trPstNames, List.map_append, map_lower_K_knot]
 
 /-! ### zipIdx -/
 
@@ -133,11 +164,10 @@ theorem risePst_obs (sy : Sy) (riseObs : List String) :
       riseObs.zipIdx.map (fun p => { name := obsName (p.2 + 1), value := p.1, group := "storageobs" }) := by
   cases sy <;> rfl
 
-theorem curvesPst_obs (sy : Sy) (nT : Nat) (riseObs recObs : List String) :
-    (curvesPst sy nT riseObs recObs).obs =
+theorem curvesPst_obs (sy : Sy) (tr : Tr) (riseObs recObs : List String) :
+    (curvesPst sy tr riseObs recObs).obs =
       riseObs.zipIdx.map (fun p => { name := obsName (p.2 + 1), value := p.1, group := "storageobs" }) ++
-      recObs.zipIdx.map (fun p => { name := obsName (riseObs.length + p.2 + 1), value := p.1, group := "timeobs" }) := by
-  cases sy <;> rfl
+      recObs.zipIdx.map (fun p => { name := obsName (riseObs.length + p.2 + 1), value := p.1, group := "timeobs" }) := rfl
 
 /-! ### running an instruction file -/
 
